@@ -8,7 +8,7 @@ use pc_keyboard::*;
 #[kani::proof]
 pub fn c11_q_predicates() {
     let m = any_mods();
-    println!("C11 predicates mods={:?}", m);
+    crate::show!("C11 predicates mods={:?}", m);
     assert!(m.is_shifted() == r_shift(&m), "C11: is_shifted");
     assert!(m.is_ctrl() == r_ctrl(&m), "C11: is_ctrl");
     assert!(m.is_alt() == r_alt(&m), "C11: is_alt");
@@ -30,7 +30,7 @@ pub fn c11_check<L: KeyboardLayout>(name: &str, l: &L) {
     kani::assume(m1.numlock == m2.numlock || !is_numpad_key(k));
     let o1 = l.map_keycode(k, &m1, h);
     let o2 = l.map_keycode(k, &m2, h);
-    println!("C11 {} key={:?} mode={:?} m1={:?} m2={:?} o1={:?} o2={:?}", name, k, h, m1, m2, o1, o2);
+    crate::show!("C11 {} key={:?} mode={:?} m1={:?} m2={:?} o1={:?} o2={:?}", name, k, h, m1, m2, o1, o2);
     assert!(o1 == o2, "C11: output depends on more than Shift/Ctrl/AltGr/CapsLock/NumLock");
     kani::cover!(m1.lshift != m2.lshift && m1.lalt != m2.lalt && m1.rctrl2 != m2.rctrl2);
     kani::cover!(m1.numlock != m2.numlock);
